@@ -498,7 +498,7 @@ func TestC01_Delivery(t *testing.T) {
 	rapidGuard(t, "C01", c01Check)
 	kf1 := c01KF1Active()
 	var excluded int64
-	runRapid(t, c01Check, tierN(4000, 120000), func(t *rapid.T) {
+	runRapid(t, c01Check, tierN(12000, 160000), func(t *rapid.T) {
 		c := genC01Case(t, kf1, &excluded)
 		f, nt := evalC01(c)
 		ev.Case(c, nt, c.class(), fmt.Sprintf("clients=%d", c.Clients))
